@@ -133,7 +133,10 @@ def shard(binpath, seed, sh, plans, tz=None):
         meta = {"level": level, "text": text, "instant_ns": str(instant_ns), "notation_class": ncls,
                 "frac": bool(frac), "style": style,
                 "delta_s": delta if isinstance(delta, str) else round(delta, 1)}
-        cases.append(scen.verify_case(wires[node["req"]], [[W.kid("ed0"), W.pub("ed0")]], files, meta=meta, reps=1))
+        # the caller may ask for the summary under a name: that has nothing to do with the expiry check
+        sn = rng.choice([None, None, "final", "", "release é"])
+        meta["summary_name"] = "none" if sn is None else "given"
+        cases.append(scen.verify_case(wires[node["req"]], [[W.kid("ed0"), W.pub("ed0")]], files, meta=meta, reps=1, step_name=sn))
     # the verifying process may run in any local time zone: the verdict is about instants, not wall-clock readings
     import os
     obs = common.run_batch(binpath, cases, env=dict(os.environ, TZ=tz) if tz else None)
@@ -149,6 +152,7 @@ def shard(binpath, seed, sh, plans, tz=None):
             cls += [f"process_time_zone:{'west' if tz in WEST else 'east'}_of_utc:{x}" for x in out]
         if m["frac"]:
             cls += [f"fractional:{x}" for x in out]
+        cls += [f"summary_name_{m['summary_name']}:{x}" for x in out]
         if m["style"] != "T_Z":
             cls += [f"style:{m['style']}:{x}" for x in out]
         if "unexpired_rejected" in out:
@@ -256,7 +260,7 @@ def main(ctx):
     req = ["top:expired", "top:unexpired_ok", "sub:expired", "sub:unexpired_ok", "notation:offset:expired",
            "notation:offset:unexpired_ok", "notation:zero-offset:expired", "notation:Z:expired", "notation:Z:unexpired_ok",
            "fractional:expired", "fractional:unexpired_ok", "history:after:bad_signature:expired", "history:after:success:expired",
-           "history:after:expired_long_ago:expired", "process_time_zone:west_of_utc:expired", "process_time_zone:west_of_utc:unexpired_ok",
+           "history:after:expired_long_ago:expired", "summary_name_given:expired", "summary_name_given:unexpired_ok", "process_time_zone:west_of_utc:expired", "process_time_zone:west_of_utc:unexpired_ok",
            "process_time_zone:east_of_utc:expired", "process_time_zone:east_of_utc:unexpired_ok"]
     return common.finish(
         PROP, ctx.tier, ctx.seed, res, t0=ctx.t0,
